@@ -5,6 +5,7 @@ package main
 
 import (
 	"fmt"
+	"os"
 	"strings"
 
 	"golang.org/x/tools/go/ssa"
@@ -216,6 +217,9 @@ func runC01(cx *Ctx, r *Report) {
 				T, tt, okT := findLeaf(fx, all, func(t string) bool {
 					return strings.HasPrefix(t, "sdk.Coins.AmountOf(") && strings.HasSuffix(t, ", msg.MaxToken.Denom)")
 				})
+				if os.Getenv("DEBUG_C01") != "" {
+					fmt.Fprintf(os.Stderr, "C01 %s okL=%v okS=%v okT=%v d0=%s d1=%s\n   payterm=%s\n", key, okL, okS, okT, fx.Describe(d[0].Amt), fx.Describe(d[1].Amt), fx.w.ts.Of(lastArgV(pay.ev), pay.ev.Fr))
+				}
 				if !okL || !okS || !okT {
 					r.violate("liquidity-formula", key, pos, "cannot identify supply / standard reserve / token reserve in mint = "+fx.Describe(m[0].Amt)+" ["+fx.Legend(m[0].Amt)+"]")
 					continue
@@ -225,7 +229,11 @@ func runC01(cx *Ctx, r *Report) {
 				r2, _ := fx.Ref("floor(T*s/S) + 1", bind)
 				r.check(rEq(m[0].Amt, r1), "liquidity-formula", key+"|mint", pos, "mint = ⌊L·s/S⌋  ["+fx.Legend(m[0].Amt)+"]", "mint is "+fx.Describe(m[0].Amt)+", expected ⌊L·s/S⌋ ["+fx.Legend(m[0].Amt)+"]")
 				r.check(rEq(d[1].Amt, r2) && rEq(d[0].Amt, s), "liquidity-formula", key+"|deposit", pay.ev.Pos(cx), "deposit = (s, ⌊T·s/S⌋ + 1)", "deposit is ("+fx.Describe(d[0].Amt)+", "+fx.Describe(d[1].Amt)+"), expected (s, ⌊T·s/S⌋+1) ["+fx.Legend(d[1].Amt)+"]")
-				okZ := factsHave(*mint, false, "math.Int.IsZero("+st+")") && factsHave(*mint, false, "math.Int.IsZero("+tt+")") && factsHave(*mint, false, "math.Int.IsZero("+lt+")")
+				// ¬IsZero(x), or the stronger IsPositive(x)
+				nz := func(t string) bool {
+					return factsHave(*mint, false, "math.Int.IsZero("+t+")") || factsHave(*mint, true, "math.Int.IsPositive("+t+")")
+				}
+				okZ := nz(st) && nz(tt) && nz(lt)
 				r.check(okZ, "reserve-guard", key+"|nonzero", pos, "standard reserve, token reserve and supply are tested non-zero before the quotients", "add-liquidity quotients without the three non-zero facts")
 			} else {
 				t, tt, okT := findLeaf(fx, []Rat{m[0].Amt}, func(t string) bool {
